@@ -30,6 +30,33 @@ CLAIMED.update({
    note="Existential oracle over 18 continuations only; calibrated clean on the unchanged tree. Partial synchrony: loss among correct operators in the prefix = delay."),
 })
 
+CLAIMED.update({
+ "C04": dict(engine="ekmsim", cat="exploration", ref="DESIGN.md §3 C04",
+   technique="deterministic simulation: seeded key-manager histories with restarts, crash/error injection at the k-th storage call and a fake clock; history oracle over every released signature",
+   text="Seeded histories of add/remove/re-add share, reactivation bump, attestation and block signing at or below the clock, clock advances, restarts on the same database, operations interrupted at any storage call (crash before/after, storage error) and deleted/corrupted protection records against the real ekm + eth2-key-manager signer; every released signature is judged against the whole life of the share (double vote, surround, double proposal, signing without a readable record). Level is exploration (fault points are sampled per operation, not enumerated).",
+   note="Concurrent signing requests are NOT covered (scenario built but disarmed: see DESIGN.md §3 C04). Trusted: fake clock, MemDB stub (real in-memory Badger in 1/6 of runs), history oracle."),
+ "C11": dict(engine="regsim", cat="exploration", ref="DESIGN.md §3 C11",
+   technique="deterministic simulation: seeded contract-event logs through the real event handler; executable reference model of the registration rules; re-partitioning and restart comparison",
+   text="Seeded sequences of all 8 registry events (ValidatorAdded valid or malformed in exactly one of 12 ways) ABI-encoded and fed through HandleBlockEventsStream; after every block the node's state through its getters must equal a reference model written from the statement, a freshly booted node on the same database must show the same, and the same log re-partitioned into blocks must end in the same database.",
+   note="Trusted: reference model, ABI log builder, MemDB stub (Badger in 1/7 runs). Log respects contract guarantees (unique increasing operator ids)."),
+ "C12": dict(engine="regsim", cat="fault_enumeration", ref="DESIGN.md §3 C12",
+   technique="deterministic simulation: crash/error enumeration over every storage call of block processing (incl. key-manager and cleanup writes outside the transaction), restart on surviving state, comparison with the uninterrupted run",
+   text="Per generated block sequence an uninterrupted counting run fixes the M interruption points; each chosen point x {crash before, crash after, storage error} is executed with restart on the surviving database and resumption from last processed + 1; final registry state, nonces and usable/stored key shares must equal the uninterrupted run. Exhaustive over all points for short sequences, biased sampling otherwise.",
+   note="Durable state = committed database writes (process crash). One class of known finding (orphan account record of the third-party wallet) is listed; two genuine defects were repaired (fix: commits)."),
+ "C13": dict(engine="elsim", cat="exploration", ref="DESIGN.md §3 C13",
+   technique="deterministic simulation: real ExecutionClient + go-ethereum rpc client against an in-memory fake node over net.Pipe in a synctest bubble; seeded heads, connection drops, request failures; history oracle",
+   text="The real StreamLogs / FetchHistoricalLogs / reconnect / PackLogs and the real ethclient run against a generated chain served by go-ethereum's rpc.Server over net.Pipe; heads, idle drops, drops instead of replies, getLogs and subscribe failures, refused dials and fake-time back-off are injected one at a time; the delivered BlockLogs history is checked for order, completeness, exact content and range, plus bounded liveness after faults stop.",
+   note="One guarded hook (dial indirection, build tag verif). Request fault points sampled, no reorgs. A genuine cursor defect was repaired (fix: commit)."),
+ "C16": dict(engine="dutysim", cat="exploration", ref="DESIGN.md §3 C16",
+   technique="deterministic simulation: real duty scheduler + handlers + slot ticker on a fake clock (synctest), scripted beacon node with changing assignments, reorg / indices-change / fetch-failure injection; three-valued reference",
+   text="Real duties.Scheduler with attester, proposer and sync-committee handlers runs several epochs across a sync-committee period boundary under head events implying reorgs, indices changes, failing, slow and hung fetches; every ExecuteDuties call is judged against a MUST / MUST-NOT / MAY reference written from the statement (no double dispatch, only during the duty's slot, never absent from the latest fetched assignment, always when fetched in time).",
+   note="Leniencies (invalidated-but-not-refetched = MAY, ticks spent inside a beacon call) are listed in the evidence assumptions; lost epochs after certain reorgs are reported as diagnostics only (outside the statement)."),
+ "C17": dict(engine="qbftsim", cat="exploration", ref="DESIGN.md §3 C17",
+   technique="deterministic simulation: real RoundTimer under the synctest fake clock with seeded arm/advance/re-arm/cancel programs; stale and duplicate timeout events injected at the real controller",
+   text="Seeded programs of arm(increasing rounds)/advance/advance-to-deadline+-2ms/handler swap/cancel/burst re-arm against the real RoundTimer for all roles, callbacks judged with fake timestamps (once per arming, only the latest round, not before the documented deadline); fault-free multi-operator runs with lower-round, other-height, decided-instance and duplicate timeout events at Controller.OnTimeout which must change nothing.",
+   note="Deadline formula written from the documented rule. Burst re-arm is judged over 16 trials with one P because a defective timer's outcome depends on the runtime's select choice."),
+})
+
 NOT_YET = {}
 ALL = ["C%02d" % i for i in range(1, 19)]
 NA = {
